@@ -53,7 +53,7 @@ Proof. unfold resolve_target. now intros ->. Qed.
    first NOP; pattern '*' *)
 Definition pe_sym : sym := {| s_addr := 2; s_size := 12; s_type := ST_GLOBAL_FUNC; s_name := [97] |}.
 Definition pe_cfg : cfg :=
-  {| c_pats := [{| pi_patt := {| pt_type := PGlob; pt_str := [42] |}; pi_mod := []; pi_pos := true |}];
+  {| c_pats := [{| pi_patt := {| pt_type := PGlob; pt_str := [42] |}; pi_mod := []; pi_pos := true; pi_exact := false |}];
      c_lib := [109]; c_so := None; c_ty := DPatchable; c_tramp := 4080; c_min := 0 |}.
 Definition pe_mem52 : mem := mem_of 0 ([144; 144] ++ [144; 144; 144; 141; 68; 127; 1; 195] ++ [204; 204; 204; 204; 204; 204; 204; 204]).
 Definition pe_mem72 : mem := mem_of 0 ([144; 144] ++ [144; 144; 144; 144; 144; 141; 68; 127; 1; 195] ++ [204; 204; 204; 204; 204; 204; 204; 204]).
